@@ -12,9 +12,10 @@ package main
 //	         corresponding list of the other, it is a RE-SLICE of it (h := g[:len(g)-1]; same
 //	         slice on both sides when equal)
 //	nilled   empty slices replaced by nil
-//	inplace  the argument is a packed copy of A that has already been compared with A (both
-//	         orders) and is then overwritten IN PLACE with B's coordinates (same addresses, same
-//	         lengths); only when A and B have the same shape
+//	inplace  the argument is a packed copy of A that has already been compared with A and is then
+//	         overwritten IN PLACE with B's coordinates (same addresses, same lengths): the identical
+//	         call right before and right after the overwrite, for each direction separately, then
+//	         after a warm-up in both orders; only when A and B have the same shape
 //
 // For every layout: A.Similar(B), B.Similar(A), A.Similar(B), B.Similar(A); both operands are
 // compared bit for bit with a snapshot after every call.
@@ -489,13 +490,31 @@ func evalAll(a, b geom.Geom, tol float64) (string, string, string) {
 	lays = append(lays, lay{"nilled", nilled(clone(a)), nilled(clone(b))})
 	if sameShape(a, b) {
 		pa, pb := pack(a), pack(a)
-		vproto.Safe(func() { pa.Similar(pb, tol); pb.Similar(pa, tol) })
 		src := pointRefs(clone(b), nil)
+		org := pointRefs(clone(a), nil)
 		dst := pointRefs(pb, nil)
-		if len(src) == len(dst) {
-			for i := range dst {
-				*dst[i] = *src[i]
+		if len(src) == len(dst) && len(org) == len(dst) {
+			set := func(from []*geom.Point) {
+				for i := range dst {
+					*dst[i] = *from[i]
+				}
 			}
+			// the SAME call (same receiver, same argument, same addresses and lengths) immediately
+			// before and after the argument's coordinates are overwritten, in either direction: a
+			// result remembered under the operands' addresses (one entry or many) answers stale
+			vproto.Safe(func() { pa.Similar(pb, tol) })
+			set(src)
+			q1 := res(func() bool { return pa.Similar(pb, tol) })
+			set(org)
+			vproto.Safe(func() { pb.Similar(pa, tol) })
+			set(src)
+			q2 := res(func() bool { return pb.Similar(pa, tol) })
+			if q1 != p1 || q2 != p2 {
+				return q1, q2, "@inplace"
+			}
+			set(org)
+			vproto.Safe(func() { pa.Similar(pb, tol); pb.Similar(pa, tol) })
+			set(src)
 			lays = append(lays, lay{"inplace", pa, pb})
 		}
 	}
